@@ -60,7 +60,8 @@ func (b *Battle) Spawn(i, off int) bool {
 	if w.State == Alive {
 		return false
 	}
-	off %= b.M
+	// the offset is an unsigned 64-bit number; negative ints stand for 2^64+off
+	off = int(uint64(off) % uint64(b.M))
 	for k, ins := range w.W.Code {
 		b.Core[(off+k)%b.M] = ins
 	}
